@@ -313,9 +313,12 @@ impl GrammarBuilder {
                     ..Production::default()
                 };
 
-                // Inherit meta-data from Rule.
+                // Inherit meta-data from Rule. Associativity is a single
+                // piece of meta-data given by one of two keys.
+                let is_assoc = |key: &str| key == "left" || key == "right";
+                let has_assoc = new_production.meta.keys().any(|key| is_assoc(key));
                 for (key, data) in &rule.meta {
-                    if !new_production.meta.contains_key(key) {
+                    if !new_production.meta.contains_key(key) && !(has_assoc && is_assoc(key)) {
                         new_production.meta.insert(key.clone(), data.clone());
                     }
                 }
